@@ -311,3 +311,38 @@ impl Drop for Server {
         let _ = self.child.wait();
     }
 }
+
+/// Materialise a workspace including the virtualenv metadata that makes the real scan discover
+/// its site-packages files (pytest11 entry points) and its workspace plugin files (editable
+/// install whose source lives inside the workspace).
+pub fn materialize_with_venv(ws: &Ws, r: &Rendered, root: &Path) {
+    materialize(ws, r, root);
+    let sp = root.join(".venv/lib/python3.11/site-packages");
+    let mut need_venv = false;
+    for f in ws.files.iter() {
+        if f.is_third_party() {
+            need_venv = true;
+            // .venv/lib/python3.11/site-packages/<pkg>/plugin.py
+            let rest = f.rel.split("site-packages/").nth(1).unwrap_or("");
+            let pkg = rest.split('/').next().unwrap_or("tp");
+            let module = rest.trim_end_matches(".py").replace('/', ".");
+            write_file(&sp, &format!("{}-1.0.dist-info/entry_points.txt", pkg), &format!("[pytest11]\n{} = {}\n", pkg, module));
+            write_file(&sp, &format!("{}/__init__.py", pkg), "");
+        } else if f.plugin {
+            need_venv = true;
+            // plug/<name>.py : editable install of the directory, entry point = module <name>
+            let dir = root.join(f.dir());
+            let name = f.rel.rsplit('/').next().unwrap_or("p.py").trim_end_matches(".py").to_string();
+            write_file(&sp, &format!("{}-1.0.dist-info/entry_points.txt", name), &format!("[pytest11]\n{} = {}\n", name, name));
+            write_file(&sp, &format!("{}-1.0.dist-info/direct_url.json", name), &format!("{{\"url\": \"file://{}\", \"dir_info\": {{\"editable\": true}}}}", dir.display()));
+            write_file(&sp, &format!("__editable__.{}-1.0.pth", name), &format!("{}\n", dir.display()));
+        }
+    }
+    if need_venv {
+        std::fs::create_dir_all(&sp).expect("mkdir site-packages");
+    }
+}
+
+pub fn seed_shim() -> String {
+    "/verif/.build/harness/release/libseedshim.so".to_string()
+}
